@@ -48,7 +48,7 @@ pub fn run(out: &mut Out, thorough: bool, seed: u64, _extra: &[String]) {
         let gs: Vec<usize> = if n <= 32 || thorough && n <= 128 { (0..n).map(|j| 2 * j + 1).collect() } else { (0..12).map(|_| 2 * r.below(n as u64) as usize + 1).collect() };
         for &g in &gs {
             let a: Vec<u64> = match r.below(3) { 0 => { let mut v = vec![0u64; n]; v[r.below(n as u64) as usize] = 1; v } 1 => vec![q - 1; n], _ => (0..n).map(|_| r.below(q)).collect() };
-            out.case(&format!("galois_apply {} {} {} {}", k, q, g, fl(&a)), &format!("apply-k{}", k), || { let mut res = vec![0u64; n]; tool.apply(&a, g, &m, &mut res); fl(&res) });
+            out.case(&format!("galois_apply {} {} {} {}", k, q, g, fl(&a)), &format!("apply-k{}", k), || { let mut res = vec![0xDEAD_BEEF_0BAD_F00Du64; n]; tool.apply(&a, g, &m, &mut res); fl(&res) });
             out.case(&format!("galois_table {} {}", k, g), &format!("table-k{}", k), || fl(&tool.generate_table_ntt(g).iter().map(|&x| x as u64).collect::<Vec<_>>()));
             let mut an = a.clone(); tables.ntt_negacyclic_harvey(&mut an);
             out.case(&format!("galois_apply_ntt {} {} {} {}", k, q, g, fl(&an)), &format!("applyntt-k{}", k), || { let mut res = vec![0u64; n]; tool.apply_ntt(&an, g, &mut res); fl(&res) });
@@ -138,6 +138,21 @@ pub fn run(out: &mut Out, thorough: bool, seed: u64, _extra: &[String]) {
                     let d = benc.decode_new(&s.decryptor.decrypt_new(&res));
                     if d == rot_rows(&slots, st) { out.raw(&format!("!OK rotate_rows_slots {} n={} step={} {} # rows-slots", scheme_name(scheme), n, st, nm)); }
                     else { out.raw(&format!("!FAIL rotate_rows_slots {} n={} step={} {} :: decoded matrix is not rotated left by step # rows-slots", scheme_name(scheme), n, st, nm)); }
+                }
+            }
+            // a ciphertext with a SPARSE second polynomial (c1 = 0: the transparent ciphertext (Delta m, 0) obtained as ct - ct + plain, and one
+            // whose c1 is a monomial): automorphisms that skip zero coefficients leave stale words of c0 in the scratch buffer
+            if level == 0 {
+                let zero = s.evaluator.sub_new(&ct, &ct);
+                let sparse = match std::panic::catch_unwind(std::panic::AssertUnwindSafe(|| s.evaluator.add_plain_new(&zero, &plain))) { Ok(c) => Some(c), Err(_) => None };
+                if let Some(sp) = sparse {
+                    for st in [1isize, -1, (row / 2) as isize] {
+                        let g = hu::GaloisTool::new(lg).get_elt_from_step(st);
+                        match std::panic::catch_unwind(std::panic::AssertUnwindSafe(|| s.evaluator.rotate_rows_new(&sp, st, &all_keys))) {
+                            Ok(res) => { out.case(&format!("prog {} {} {}", s.ct_case(&res), pred0 - 4, fl(&trim(&shadow_subst(&msg, g, t)))), &format!("{}-rows-sparse-c1", scheme_name(scheme)), || s.dec_str(&res)); }
+                            Err(_) => { let m = LAST_PANIC.with(|p| p.borrow().clone()); if !m.contains("transparent") { out.raw(&format!("!FAIL rotate_rows {} n={} step={} sparse-c1 :: refused: {} # rows-sparse", scheme_name(scheme), n, st, m.replace('\n', " "))); } }
+                        }
+                    }
                 }
             }
             // destination forms at this level (fresh destination and a used top-level one)
